@@ -124,7 +124,7 @@ def harnesses(tier):
     hs = []
     from checks import conflib
     C = conflib.setup()[0]
-    for name, cfg in ([("L4[n=3]", dict(n=3)), ("L4[n=2,chunk symbolic]", dict(n=2, sym_chunk=True))] if tier == "quick" else [("L4[n=3,chunk symbolic]", dict(n=3, sym_chunk=True)), ("L4[n=4]", dict(n=4))]):
+    for name, cfg in ([("L4[n=3]", dict(n=3)), ("L4[n=2,chunk symbolic]", dict(n=2, sym_chunk=True))] if tier == "quick" else [("L4[n=3,chunk symbolic]", dict(n=3, sym_chunk=True))]):  # (L4[n=4] does not finish in 15 minutes: not included)
         hs.append(Harness(name, cfg, sym_label_blind, real="l4", functions=[C.assign_confidence, C._save_sorted_metadata_chunks], bounds=cfg,
                           stubs=["as C03"], assumptions=["L4: survivors of the competition are independent of the labels (needed for exchangeability of incorrect targets and decoys when scores tie)"],
                           sample_rate=0.01))
